@@ -18,7 +18,8 @@ static cctz::TimeZoneInfo* info_of(const cctz::time_zone& tz) {
   return dynamic_cast<cctz::TimeZoneInfo*>(impl.zone_.get());
 }
 
-struct Probe { bool is_cs; long long t; cctz::civil_second cs; long long iv = -1000; };  // iv: table interval the probe was derived from
+// kind: 0 lookup(tp)  1 lookup(cs)  2 next_transition(tp)  3 prev_transition(tp)  4 format(tp)  5 parse(text of cs)
+struct Probe { bool is_cs; long long t; cctz::civil_second cs; long long iv = -1000; int kind = -1; };  // iv: table interval the probe was derived from
 static bool g_thorough = false;
 
 static std::string ans_tp(const cctz::time_zone& tz, long long t) {
@@ -33,12 +34,43 @@ static std::string ans_cs(const cctz::time_zone& tz, const cctz::civil_second& c
   snprintf(b, sizeof b, "k%d %lld %lld %lld", cl.kind, (long long)glue::unix_of(cl.pre), (long long)glue::unix_of(cl.trans), (long long)glue::unix_of(cl.post));
   return b;
 }
-static std::string ans(const cctz::time_zone& tz, const Probe& p) { return p.is_cs ? ans_cs(tz, p.cs) : ans_tp(tz, p.t); }
-static std::string probe_str(const Probe& p) {
-  if (!p.is_cs) return "lookup(tp " + std::to_string(p.t) + ")";
+static std::string cs_text(const cctz::civil_second& cs) {
   char b[100];
-  snprintf(b, sizeof b, "lookup(cs %lld-%02d-%02dT%02d:%02d:%02d)", (long long)p.cs.year(), p.cs.month(), p.cs.day(), p.cs.hour(), p.cs.minute(), p.cs.second());
+  snprintf(b, sizeof b, "%lld-%02d-%02dT%02d:%02d:%02d", (long long)cs.year(), cs.month(), cs.day(), cs.hour(), cs.minute(), cs.second());
   return b;
+}
+static std::string ans_trans(const cctz::time_zone& tz, long long t, bool next) {
+  cctz::time_zone::civil_transition tr;
+  const bool ok = next ? tz.next_transition(glue::tp_of(t), &tr) : tz.prev_transition(glue::tp_of(t), &tr);
+  if (!ok) return "none";
+  return cs_text(tr.from) + ">" + cs_text(tr.to);
+}
+static std::string ans_parse(const cctz::time_zone& tz, const cctz::civil_second& cs) {
+  cctz::time_point<cctz::seconds> tp;
+  const bool ok = cctz::parse("%Y-%m-%dT%H:%M:%S", cs_text(cs), tz, &tp);
+  return ok ? "ok " + std::to_string(glue::unix_of(tp)) : "fail";
+}
+static int kind_of(const Probe& p) { return p.kind >= 0 ? p.kind : (p.is_cs ? 1 : 0); }
+static std::string ans(const cctz::time_zone& tz, const Probe& p) {
+  switch (kind_of(p)) {
+    case 0: return ans_tp(tz, p.t);
+    case 1: return ans_cs(tz, p.cs);
+    case 2: return ans_trans(tz, p.t, true);
+    case 3: return ans_trans(tz, p.t, false);
+    case 4: return cctz::format("%Y-%m-%dT%H:%M:%S %Ez %Z %a %j", glue::tp_of(p.t), tz);
+    default: return ans_parse(tz, p.cs);
+  }
+}
+static const char* kind_name(int k) { static const char* n[] = {"BreakTime", "MakeTime", "NextTransition", "PrevTransition", "format", "parse"}; return n[k]; }
+static std::string probe_str(const Probe& p) {
+  switch (kind_of(p)) {
+    case 0: return "lookup(tp " + std::to_string(p.t) + ")";
+    case 1: return "lookup(cs " + cs_text(p.cs) + ")";
+    case 2: return "next_transition(tp " + std::to_string(p.t) + ")";
+    case 3: return "prev_transition(tp " + std::to_string(p.t) + ")";
+    case 4: return "format(tp " + std::to_string(p.t) + ")";
+    default: return "parse(" + cs_text(p.cs) + ")";
+  }
 }
 
 struct ZoneIn { std::string id, bytes; };
@@ -55,12 +87,19 @@ static void hint_part(const ZoneIn& z, bool full_product_allowed, hz::Result& r)
   long long cur_iv = -1000;
   auto add_tp = [&](long long t) { Probe q{false, t, cctz::civil_second()}; q.iv = cur_iv; P.push_back(q); };
   auto add_cs = [&](const cctz::civil_second& c) { Probe q{true, 0, c}; q.iv = cur_iv; P.push_back(q); };
+  auto add_kind = [&](int kind, long long t, const cctz::civil_second& c) { Probe q{kind == 5, t, c}; q.iv = cur_iv; q.kind = kind; P.push_back(q); };
   for (size_t i = 0; i < n; ++i) {
     cur_iv = static_cast<long long>(i);
     const cctz::Transition& tr = ti->transitions_[i];
     const long long t = tr.unix_time;
     if (t > INT64_MIN) add_tp(t - 1);
     add_tp(t);
+    // transition queries on both sides of the entry; format / parse (built on the two lookups) on every 4th entry
+    if (t > INT64_MIN) add_kind(2, t - 1, cctz::civil_second());
+    add_kind(2, t, cctz::civil_second());
+    add_kind(3, t, cctz::civil_second());
+    if (t < INT64_MAX) add_kind(3, t + 1, cctz::civil_second());
+    if ((i % 4) == 0 || i + 2 >= n) { add_kind(4, t, cctz::civil_second()); add_kind(5, 0, tr.civil_sec); }
     if (i + 1 < n) add_tp(t + (ti->transitions_[i + 1].unix_time - t) / 2);
     add_cs(tr.civil_sec);
     add_cs(tr.prev_civil_sec);
@@ -70,7 +109,8 @@ static void hint_part(const ZoneIn& z, bool full_product_allowed, hz::Result& r)
   }
   cur_iv = -1000;
   const long long far[] = {INT64_MIN, INT64_MAX, 1LL << 40, 32503680000LL, 253402300800LL};
-  for (long long t : far) add_tp(t);
+  for (long long t : far) { add_tp(t); add_kind(2, t, cctz::civil_second()); add_kind(3, t, cctz::civil_second()); add_kind(4, t, cctz::civil_second()); }
+  add_kind(5, 0, cctz::civil_second(2500, 7, 1, 12, 0, 0));
   add_cs(cctz::civil_second(2500, 7, 1, 12, 0, 0));
   add_cs(cctz::civil_second(123456, 3, 31, 2, 30, 0));
   add_cs(cctz::civil_second::max());
@@ -91,8 +131,8 @@ static void hint_part(const ZoneIn& z, bool full_product_allowed, hz::Result& r)
     (void)ans(tz, P[k]);
     r.count("transitions");
     const size_t h1 = ti->local_time_hint_.load(), h2 = ti->time_local_hint_.load();
-    if (P[k].is_cs && h1 != 0) r.violation("C14:cross-direction-hint", "zone " + z.id + ": " + probe_str(P[k]) + " changed the BreakTime hint", {"--zone", z.id});
-    if (!P[k].is_cs && h2 != 0) r.violation("C14:cross-direction-hint", "zone " + z.id + ": " + probe_str(P[k]) + " changed the MakeTime hint", {"--zone", z.id});
+    if (kind_of(P[k]) == 1 && h1 != 0) r.violation("C14:cross-direction-hint", "zone " + z.id + ": " + probe_str(P[k]) + " changed the BreakTime hint", {"--zone", z.id});
+    if (kind_of(P[k]) == 0 && h2 != 0) r.violation("C14:cross-direction-hint", "zone " + z.id + ": " + probe_str(P[k]) + " changed the MakeTime hint", {"--zone", z.id});
     reach1.insert(h1);
     reach2.insert(h2);
   }
@@ -114,15 +154,18 @@ static void hint_part(const ZoneIn& z, bool full_product_allowed, hz::Result& r)
     ++states;
     for (size_t k = 0; k < P.size(); ++k) {
       if (windowed && P[k].iv >= 0 && (k % spread) != 0) {
-        const long long d1 = P[k].iv - static_cast<long long>(h1), d2 = P[k].iv - static_cast<long long>(h2);
-        if ((d1 < -3 || d1 > 3) && (d2 < -3 || d2 > 3)) continue;
+        // +-3 intervals around the hint the probe's own code path consults, +-1 around the other direction's hint
+        const int kd = kind_of(P[k]);
+        const bool uses_h2 = (kd == 1 || kd == 5);
+        const long long dn = P[k].iv - static_cast<long long>(uses_h2 ? h2 : h1), dc = P[k].iv - static_cast<long long>(uses_h2 ? h1 : h2);
+        if ((dn < -3 || dn > 3) && (dc < -1 || dc > 1)) continue;
       }
       ti->local_time_hint_.store(h1);
       ti->time_local_hint_.store(h2);
       const std::string got = ans(tz, P[k]);
       r.count("evaluations");
       if (got != expect[k]) {
-        r.violation(std::string("C14:history-dependent:") + (P[k].is_cs ? "MakeTime" : "BreakTime"),
+        r.violation(std::string("C14:history-dependent:") + kind_name(kind_of(P[k])),
                     "zone " + z.id + " (table of " + std::to_string(n) + "): " + probe_str(P[k]) + " answers [" + got + "] when the hints are (" + std::to_string(h1) + "," + std::to_string(h2) + ") but [" + expect[k] + "] on a freshly loaded zone",
                     {"--zone", z.id, "--h1", std::to_string(h1), "--h2", std::to_string(h2)});
         return false;
@@ -146,7 +189,7 @@ done:
   ti->local_time_hint_.store(0);
   ti->time_local_hint_.store(0);
   const size_t stride = P.size() > 400 ? P.size() / 200 : 1;
-  for (size_t a = 0; a < P.size(); a += stride) for (int d = -6; d <= 6; ++d) {
+  for (size_t a = 0; a < P.size(); a += stride) for (int d = -14; d <= 14; ++d) {
     long long b = static_cast<long long>(a) + d;
     if (b < 0 || b >= static_cast<long long>(P.size())) continue;
     (void)ans(tz, P[a]);
@@ -154,7 +197,7 @@ done:
     r.count("evaluations");
     r.count("transitions", 2);
     if (got != expect[b]) {
-      r.violation(std::string("C14:history-dependent-seq:") + (P[b].is_cs ? "MakeTime" : "BreakTime"), "zone " + z.id + ": after " + probe_str(P[a]) + ", " + probe_str(P[b]) + " answers [" + got + "] instead of [" + expect[b] + "]", {"--zone", z.id});
+      r.violation(std::string("C14:history-dependent-seq:") + kind_name(kind_of(P[b])), "zone " + z.id + ": after " + probe_str(P[a]) + ", " + probe_str(P[b]) + " answers [" + got + "] instead of [" + expect[b] + "]", {"--zone", z.id});
       break;
     }
   }
@@ -271,7 +314,7 @@ int main(int argc, char** argv) {
     return {};
   });
   total.counters["traces_validated_against_impl"] = total.counters["transitions"];
-  total.sample("{\"zone\":\"America/New_York\",\"state\":\"(local_time_hint_=h1, time_local_hint_=h2) for every h in 0..n+1\",\"probe\":\"lookup(tp)/lookup(cs) at both ends and the middle of every table interval, inside every gap and overlap\"}");
+  total.sample("{\"zone\":\"America/New_York\",\"state\":\"(local_time_hint_=h1, time_local_hint_=h2) for every h in 0..n+1\",\"probe\":\"lookup(tp)/lookup(cs) at both ends and the middle of every table interval, inside every gap and overlap; next_transition/prev_transition on both sides of every entry; format/parse at every 4th entry\"}");
   total.sample("{\"cache_sequence\":[\"A\",\"X\",\"A2\",\"A\",\"X\"],\"oracle\":\"name -> first result; data source consulted at most once per name\"}");
   return hz::finish(a, total);
 }
